@@ -2,6 +2,8 @@ pub mod c01;
 pub mod c07;
 pub mod c08;
 pub mod c09;
+pub mod c12;
+pub mod c13;
 pub mod c16;
 pub mod c17;
 
@@ -18,6 +20,8 @@ pub fn lookup(id: &str) -> Option<(&'static str, RunFn, ReplayFn, &'static str, 
         "C07" => ("C07", c07::run, c07::replay, "exploration", c07::worker),
         "C08" => ("C08", c08::run, c08::replay, "exploration", c08::worker),
         "C09" => ("C09", c09::run, c09::replay, "exploration", c09::worker),
+        "C12" => ("C12", c12::run, c12::replay, "exploration", c12::worker),
+        "C13" => ("C13", c13::run, c13::replay, "exploration", c13::worker),
         "C16" => ("C16", c16::run, c16::replay, "exploration", c16::worker),
         "C17" => ("C17", c17::run, c17::replay, "exploration", c17::worker),
         _ => return None,
